@@ -359,7 +359,8 @@ def check_case(case):
 def shard(cases):
     acc = core.Acc()
     for case in cases:
-        v, calls = check_case(case)
+        with core.istate(case["kind"] + str(case.get("size", ""))):
+            v, calls = check_case(case)
         acc.states += 1
         acc.traces += 1
         acc.transitions += calls
@@ -385,6 +386,7 @@ def run(tier, seed, t0):
     cases += [{"kind": "laws", "u": u, "w": w} for u, w in pairs]
     nsh = 16 * 8
     acc = core.pmap(shard, [cases[i::nsh] for i in range(nsh)])
+    acc.merge(core.run_optimized(PROP, tier))      # the rejection battery once more under `python -O`
     return core.finish(
         PROP, tier, seed, acc, t0,
         rule="exhaustive: 12 sizes x 20 residues against the documented partition table (representative is a member of the "
@@ -398,6 +400,10 @@ def run(tier, seed, t0):
              "containers; non-trivial = all but single-letter law cases" % len(pairs),
         bounds={"law_pairs": len(pairs), "sizes": list(T.SIZES)},
         assumptions=["partition table pinned from the docstring in vmc/refmodel/tables.py:REDUCED"])
+
+
+def opt_shards(tier):
+    return [(shard, [{"kind": "sizes"}, {"kind": "user"}, {"kind": "partition", "size": 8}])]
 
 
 def replay(case):
